@@ -150,3 +150,27 @@ define(_WHOLE.format(name='len1_31', budget=90, kind='hunt', parser='XPath31Pars
                      bound='XPath 3.1: every source string of length <= 1 over all code points (not exhausted in 300 s: bug-hunting), then parser reuse'), globals())
 define(_WHOLE.format(name='len2_31', budget=60, kind='hunt', parser='XPath31Parser', maxlen=2, extra='',
                      bound='XPath 3.1: every source string of length <= 2 (not exhaustible: bug-hunting), then parser reuse'), globals())
+
+
+# --- added after round-2 seeded changes: a failed collation set-up raises only ElementPathError and cannot make the next call hang -----
+
+from harness.locstub import _history   # noqa: E402  (stub locale module; installed locales are solver variables)
+
+_COLL = '''
+@ob(budget=90, family='collation-failure-history', bound={bound!r},
+    funcs=['elementpath/collations.py:CollationManager.__enter__/__exit__', 'elementpath/collations.py:_locale_collate_lock'])
+def collation_failure_history_{n}(de: bool, en_us: bool, it: bool, other: bool) -> bool:
+    """
+    post: _
+    """
+    return _history({k1!r}, {u1!r}, {k2!r}, {u2!r}, de, en_us, it, other)
+'''
+for _n, (_k1, _u1, _k2, _u2) in enumerate((
+        ('compare', 'http://www.w3.org/2013/collation/UCA?lang=xx_XX', 'compare', 'C'),
+        ('sort', 'http://www.w3.org/2013/collation/UCA?lang=de;fallback=yes', 'contains', 'http://www.w3.org/2013/collation/UCA'),
+        ('distinct', 'http://www.w3.org/2013/collation/UCA?lang=xx_XX;fallback=no', 'max', 'http://www.w3.org/2013/collation/UCA?lang=xx_XX'),
+        ('index-of', 'xx_XX.UTF-8', 'starts', 'http://www.w3.org/2013/collation/UCA?lang=it_IT.UTF-8'))):
+    define(_COLL.format(n=_n, k1=_k1, u1=_u1, k2=_k2, u2=_u2,
+                        bound='history [%s with %s; %s with %s] under every installed-locale configuration (16 cases chosen by the solver) on a stub '
+                              'locale module: each call returns or raises ElementPathError, the collation lock is free afterwards (so the next '
+                              'call cannot block) and the second call answers as it does alone' % (_k1, _u1, _k2, _u2)), globals())
